@@ -135,16 +135,19 @@ int main(int argc, char **argv) {
     uint64_t seed = A.u("seed", 1);
     int tfrom = (int)A.i("tfrom", 0), tto = (int)A.i("tto", T_COUNT - 1);
     int stride = (int)A.i("stride", 1);
+    long only_off = -1; int only_file = -1;
     if (mode == "replay") {
         J c = J::parse_file(A.s("replay"))["case"];
         mode = c["k"].s(); tfrom = tto = (int)c["type"].i();
-        // replay re-runs the whole (small) family for that type; the failing offset is part of it
+        // replay re-runs the recorded fault only (same instance, transport and offset); families of the key sets have > 60000 members
         stride = 1;
+        only_off = c.has("offset") ? (long)c["offset"].i() : -1; only_file = c.has("file") ? (int)c["file"].i() : -1;
     }
     for (int type = tfrom; type <= tto; type++) {
         IoObj *o = io_build(small_desc(type, seed));
         IoObj view = *o;
         for (int file = 0; file < 2; file++) {
+            if (only_file >= 0 && file != only_file) continue;
             std::string bytes = io_export_bytes(&view, file);
             // reference: import of the intact export
             std::istringstream S(bytes); FILE *F = file ? fmemopen((void *)bytes.data(), bytes.size(), "rb") : nullptr;
@@ -160,6 +163,7 @@ int main(int argc, char **argv) {
                 for (long t : tags) for (long d = -3; d <= 7; d++) must.insert(t + d);
                 for (long d = 1; d <= 40; d++) must.insert((long)bytes.size() - d);
                 for (long L = 0; L < (long)bytes.size(); L++) {
+                    if (only_off >= 0 && L != only_off) continue;
                     if (stride > 1 && !must.count(L) && (L % stride) != (long)(seed % stride)) continue;
                     Outcome oc = attempt(type, o, bytes.substr(0, L), file, ref, &detail);
                     record("trunc", type, type, file, L, 0, oc, detail);
@@ -176,6 +180,7 @@ int main(int argc, char **argv) {
                 std::unordered_set<long> strict(titles.begin(), titles.end()); strict.insert(tags.begin(), tags.end());
                 std::sort(pos.begin(), pos.end()); pos.erase(std::unique(pos.begin(), pos.end()), pos.end());
                 for (long p : pos) for (int v = 0; v < 3; v++) {
+                    if (only_off >= 0 && p != only_off) continue;
                     std::string b2 = bytes;
                     unsigned char ch = (unsigned char)b2[p];
                     b2[p] = (char)(v == 0 ? ch + 1 : v == 1 ? ch ^ 0x20 : ch ^ 0x80);
